@@ -92,6 +92,21 @@ CHECKS = {
    text="Trace validation of single-bucket Put/PutWithTimestamp/Delete histories in HintBPTSparseIdxMode (segments of 128-512 bytes so that most keys live in sealed segments reached through the on-disk B+ tree and root-index files; FileIO and MMap; Close/Open every ~12 transactions): after every transaction Get of the key universe and, at intervals and after every reopen, a full observation (GetAll) are recorded, and TLC accepts them only if they equal the ordered-map-with-TTL model (Nuts.tla/KVSpec.tla). RangeScan and PrefixScan are executed and recorded too, but on the pinned tree they deviate (known finding F-C02-1) and are not constrained.",
    note="Weaker than the statement: only Get and GetAll are judged in sparse mode; RangeScan/PrefixScan are a recorded known finding whose deviant rule admits any result. Multi-bucket sparse histories, failed commits in sparse mode and sparse crash images showed further defects in probes (DESIGN.md) and are outside this check. Trusts TLC and the recording wrapper.",
    technique="TLA+ trace validation with TLC (code -> spec) + bounded model checking of Nuts.tla"),
+ "C14": dict(
+   cat="model_checking", design="DESIGN.md section 6 C14",
+   text="(1) Lock.tla/LockCore.tla - goroutines, one writer-preferring RWMutex per database, two-step transactions, a Merge process, an Eraser-style lockset monitor - is model-checked (2 databases, 2 writers + 2 readers x 2-3 transactions + merger; 1 database with a Backup reader): Mutex, SnapshotStable, LockSet, NoLostUpdate, termination; the two repaired races (package-level queue, in-place sort of the shared root-index slice) are shown to be LockSet counterexamples. (2) Code -> spec: 4-16 goroutines run mixed View/Update transactions on 1-3 databases in every index mode with yields injected at the hook gates, race-instrumented. The lock hook (called under db.mu) counts writer acquisitions, which places every transaction in a serial order per database; that order is written out and TLC validates it as a sequential history of Nuts.tla: every read of a read-only transaction is taken twice and both must equal the same snapshot, every value is the last committed one, and end/begin ticks must respect real time. (3) The raw stream of lock and shared-access events is validated by LockTrace.tla against the RWMutex guards and the lockset monitor; race-detector reports are appended to that stream as events no action admits. A run that does not finish within the watchdog period is recorded as a deadlock event.",
+   note="Exhaustive interleavings only in the model; on the code the schedules are those the Go scheduler produces under injected yields. Trusts TLC, the hooks (verifLock is emitted while the lock is held) and the recording wrapper. Lists/sets/sorted sets are not part of the concurrent histories.",
+   technique="bounded model checking of Lock.tla + TLA+ trace validation of linearised concurrent histories (NutsTrace) and of the lock/access event stream (LockTrace), race detector as an event source"),
+ "C17": dict(
+   cat="model_checking", design="DESIGN.md section 6 C17",
+   text="As C14 with a goroutine that calls Merge in a loop next to 3-8 reading and writing goroutines (both RAM index modes, race-instrumented), plus a gate-forced schedule (verifGate) in which an update commits between Merge's scan of a segment and its rewrite. TLC validates the linearised results and the final/reopened observation against the merge-free serial history, and the lock/access stream plus race reports against LockCore. Lock.tla is model-checked with Merge as one write transaction (holds) and code-shaped (switch MergeUnlocked: TLC exhibits both the lockset violation and the lost update). On the pinned tree both happen: they are the known findings F-C17-1 and F-C17-2; any other rejection is a VIOLATION.",
+   note="Because Merge is unsynchronised on the pinned tree, a history is judged only up to its first read that the merge race changed; races whose stacks do not involve Merge are not excused.",
+   technique="bounded model checking of Lock.tla + TLA+ trace validation of linearised concurrent histories and of the lock/access event stream, gate-forced schedule, race detector as an event source"),
+ "C18": dict(
+   cat="model_checking", design="DESIGN.md section 6 C18",
+   text="A goroutine calls Backup(dir) in a loop while 3-8 goroutines write and read (both RAM index modes and sparse mode, FileIO and MMap, 1-2 databases, race-instrumented). A gate hook inside Backup's read transaction records how many writers had acquired the lock when the copy started; the copy is opened with the same options and fully observed; the backup event is placed at that point of the linearised history and TLC (NutsTrace!TrCopyObs) accepts it iff Open succeeded and the observation equals Replay(log) there - the state committed when the backup's read transaction started. Lock.tla (Backup as a two-step reader, SnapshotStable) is model-checked.",
+   note="Trusts TLC, the hooks and the recording wrapper. Backups taken while Merge runs are not generated (Merge is unsynchronised, C17).",
+   technique="TLA+ trace validation of linearised concurrent histories with Backup events + bounded model checking of Lock.tla"),
  "C01": dict(
    cat="model_checking", design="DESIGN.md section 6 C01",
    text="Trace validation: seeded random KV histories (multi-bucket, TTL on both sides of expiry, segments of 128-512 bytes so nearly every transaction rotates, reopen) are executed on the real library in HintKeyValAndRAMIdxMode and HintKeyAndRAMIdxMode x FileIO and MMap, every call is recorded, and TLC accepts the trace only if every Get/GetAll/RangeScan/PrefixScan/PrefixSearchScan result equals the KVSpec ordered-map-with-TTL result on the specification state (Nuts.tla). The API-grain design is model-checked exhaustively for a small universe (NutsMC_kv.cfg).",
